@@ -188,30 +188,35 @@ def gen_cases(rng, n, tier):
     for _ in range(n):
         u = rng.random()
         scale = 2.0 ** rng.randint(-10, 10) if tier != "thorough" else 2.0 ** rng.randint(-30, 30)
-        if u < 0.06:
-            a = [x * scale * 2.0 ** rng.randint(-8, 8) for x in grid_vec(rng)]
-            w = rng.random()
-            if w < 0.1:
-                a = [0.0, 0.0, 0.0]
-            elif max(abs(x) for x in a) < 2.0 ** -20:
-                # Line refuses directions below 1e-8 (vg.almost_zero): keep the Line forms clear of that threshold;
-                # tiny directions are exercised through the paired function form below
-                a = [x * 2.0 ** 40 for x in a] if any(a) else [scale, 0.0, 0.0]
-            if not any(a) and w >= 0.1:
-                a = [scale * 2.0 ** 10, 0.0, 0.0]
+        if tier != "thorough" and rng.random() < 0.15:
+            scale = 2.0 ** rng.choice([-30, -26, -22, 20, 25, 30])
+        if u < 0.08:
+            # direction vectors of ANY non-zero length: tiny (max |a_i| < 2^-30, which Line refuses as almost zero),
+            # ordinary, huge; and the zero vector. Lengths between 2^-30 and 2^-20 are left out (Line's 1e-8 threshold).
+            def direction():
+                w = rng.random()
+                if w < 0.08:
+                    return [0.0, 0.0, 0.0]
+                g = [0.0, 0.0, 0.0]
+                while not any(g):
+                    g = grid_vec(rng, -3, 3, 2)
+                e = rng.randint(-45, -33) if w < 0.4 else rng.randint(-18, 20)
+                return [x * 2.0 ** e for x in g]
+
             kind = rng.choice(["proj_single", "proj_stack", "proj_pairs"])
             if kind == "proj_single":
-                cases.append({"kind": kind, "p": [x * scale for x in grid_vec(rng)], "ref": [x * scale for x in grid_vec(rng)], "a": a})
+                cases.append({"kind": kind, "p": [x * scale for x in grid_vec(rng)], "ref": [x * scale for x in grid_vec(rng)],
+                              "a": direction()})
             elif kind == "proj_stack":
                 k = rng.choice([0, 1, 2, 4])
                 cases.append({"kind": kind, "ps": [[x * scale for x in grid_vec(rng)] for _ in range(k)],
-                              "ref": [x * scale for x in grid_vec(rng)], "a": a})
+                              "ref": [x * scale for x in grid_vec(rng)], "a": direction()})
             else:
-                k = rng.choice([0, 1, 2, 4])
+                k = rng.choice([0, 1, 2, 2, 4])
                 cases.append({"kind": kind, "ps": [[x * scale for x in grid_vec(rng)] for _ in range(k)],
                               "refs": [[x * scale for x in grid_vec(rng)] for _ in range(k)],
-                              "alongs": [[x * scale * 2.0 ** rng.randint(-8, 8) for x in grid_vec(rng, -3, 3, 1)] for _ in range(k)]})
-        elif u < 0.09:
+                              "alongs": [direction() for _ in range(k)]})
+        elif u < 0.11:
             w = rng.random()
             if w < 0.3:
                 along = [0.0, 0.0, 0.0]
@@ -226,9 +231,28 @@ def gen_cases(rng, n, tier):
                 cases.append({"kind": "line_ctor", "point": point, "along": along})
             else:
                 cases.append({"kind": "line_from_points", "p1": point, "p2": [a + b for a, b in zip(point, along)]})
-        elif u < 0.62:
+        elif u < 0.55:
             p0, q0, p1, q1 = _lattice_pair(rng)
-            cases.append({"kind": "isect3_lattice", "p0": p0, "q0": q0, "p1": p1, "q1": q1})
+            cases.append({"kind": "isect3_lattice", "p0": p0, "q0": q0, "p1": p1, "q1": q1, "int": rng.random() < 0.15})
+        elif u < 0.60:
+            # both lines in one axis-aligned plane: the cross products h, k have zero components of either sign bit
+            ax, cst = rng.randrange(3), float(rng.randint(-2, 2))
+
+            def inplane():
+                v = _lat(rng)
+                v[ax] = cst
+                return v
+
+            p0, q0, p1, q1 = inplane(), inplane(), inplane(), inplane()
+            if p0 != q0 and p1 != q1:
+                cases.append({"kind": "isect3_axis_plane", "p0": p0, "q0": q0, "p1": p1, "q1": q1, "int": rng.random() < 0.15})
+        elif u < 0.63:
+            # float lines at the small end of the property's range (coordinates about 1e-3), generic position: mostly
+            # clearly skew, with a triple product far below any absolute tolerance
+            sc = 2.0 ** rng.choice([-10, -10, -9, -8])
+            p0, q0, p1, q1 = ([x * sc for x in grid_vec(rng, -6, 6, 4)] for _ in range(4))
+            if p0 != q0 and p1 != q1:
+                cases.append({"kind": "isect3_float_small", "p0": p0, "q0": q0, "p1": p1, "q1": q1})
         elif u < 0.70:
             # float (dyadic) lines of moderate magnitude that meet by construction (or miss by a shift)
             sc = 2.0 ** rng.randint(-10, 9)
@@ -245,7 +269,7 @@ def gen_cases(rng, n, tier):
                 cases.append({"kind": "isect3_float", "p0": p0, "q0": q0, "p1": p1, "q1": q1})
         else:
             p0, q0, p1, q1 = _lattice_pair_2d(rng)
-            cases.append({"kind": "isect2_lattice", "p0": p0, "q0": q0, "p1": p1, "q1": q1})
+            cases.append({"kind": "isect2_lattice", "p0": p0, "q0": q0, "p1": p1, "q1": q1, "int": rng.random() < 0.15})
     return cases
 
 
@@ -265,24 +289,20 @@ def run_impl(c):
         with warnings.catch_warnings(), np.errstate(all="ignore"):
             warnings.simplefilter("ignore")
             k = c["kind"]
+            def line_form(r, a, pts):
+                # Line refuses almost-zero directions (ValueError): recorded, the model goes through the constructor too
+                return call_impl(lambda: Line(r, a).project(pts).tolist())
+
             if k == "proj_single":
                 p, r, a = np.array(c["p"]), np.array(c["ref"]), np.array(c["a"])
                 keep = [x.copy() for x in (p, r, a)]
-                o = {"fn": project_point_to_line(p, r, a).tolist()}
-                try:
-                    o["meth"] = Line(r, a).project(p).tolist()
-                except ValueError:
-                    o["meth"] = None      # Line refuses the zero direction
+                o = {"fn": project_point_to_line(p, r, a).tolist(), "meth": line_form(r, a, p)}
                 o["args_unchanged"] = all(np.array_equal(x, y) for x, y in zip(keep, (p, r, a)))
                 return o
             if k == "proj_stack":
                 ps, r, a = _arr(c["ps"]), np.array(c["ref"]), np.array(c["a"])
                 keep = [x.copy() for x in (ps, r, a)]
-                o = {"fn": project_point_to_line(ps, r, a).tolist()}
-                try:
-                    o["meth"] = Line(r, a).project(ps).tolist()
-                except ValueError:
-                    o["meth"] = None
+                o = {"fn": project_point_to_line(ps, r, a).tolist(), "meth": line_form(r, a, ps)}
                 o["args_unchanged"] = all(np.array_equal(x, y) for x, y in zip(keep, (ps, r, a)))
                 return o
             if k == "proj_pairs":
@@ -298,7 +318,8 @@ def run_impl(c):
             if k == "line_from_points":
                 ln = Line.from_points(np.array(c["p1"]), np.array(c["p2"]))
                 return {"refs": [x.tolist() for x in ln.reference_points]}
-            pts = [np.array(c[n]) for n in ("p0", "q0", "p1", "q1")]
+            dt = np.int64 if c.get("int") else np.float64
+            pts = [np.array(c[n], dtype=dt) for n in ("p0", "q0", "p1", "q1")]
             keep = [x.copy() for x in pts]
             if k.startswith("isect3"):
                 o = {"fn": _row(intersect_lines(*pts)),
@@ -332,12 +353,13 @@ def coq_case(c, o):
     if isinstance(o, dict) and "raise" in o:
         return "CIsect2 (0, 0) (0, 0) (0, 0) (0, 0) [FNan]"      # unexpected exception: make the case fail in Coq
     if k == "proj_single":
-        # Line refuses a zero direction (observed None): the method result is then not compared (NaN row of the model)
-        return "CProj %s %s %s %s %s" % (qv(c["p"]), qv(c["ref"]), qv(c["a"]), flv(o["fn"]),
-                                         flv(o["meth"] if o["meth"] is not None else NANROW))
+        m = o["meth"]
+        meth = "(Raise %s)" % m["raise"] if isinstance(m, dict) else "(Ok %s)" % flv(m)
+        return "CProj %s %s %s %s %s" % (qv(c["p"]), qv(c["ref"]), qv(c["a"]), flv(o["fn"]), meth)
     if k == "proj_stack":
-        meth = o["meth"] if o["meth"] is not None else [NANROW] * len(c["ps"])
-        return "CProjStack %s %s %s %s %s" % (coq_list(qv(p) for p in c["ps"]), qv(c["ref"]), qv(c["a"]), _rows(o["fn"]), _rows(meth))
+        m = o["meth"]
+        meth = "(Raise %s)" % m["raise"] if isinstance(m, dict) else "(Ok %s)" % _rows(m)
+        return "CProjStack %s %s %s %s %s" % (coq_list(qv(p) for p in c["ps"]), qv(c["ref"]), qv(c["a"]), _rows(o["fn"]), meth)
     if k == "proj_pairs":
         return "CProjPairs %s %s %s %s" % (coq_list(qv(p) for p in c["ps"]), coq_list(qv(p) for p in c["refs"]),
                                            coq_list(qv(p) for p in c["alongs"]), _rows(o["rows"]))
@@ -389,7 +411,7 @@ def _project_oracle(p, r, a, row, what):
     p, r, a = _F(p), _F(r), _F(a)
     if all(e == 0 for e in a):
         return None        # zero direction: the property demands nothing of the function (Line refuses it)
-    mag = max([1] + [abs(e) for e in p + r])
+    mag = max(abs(e) for e in p + r) or Fr(1)     # relative to the positions (no floor: tiny scales count too)
     s = _dot(_sub(p, r), a) / _dot(a, a)
     x = [ri + s * ai for ri, ai in zip(r, a)]
     if not _near(row, x, mag):
@@ -418,24 +440,26 @@ def oracle(c, o):
         return "unexpected exception %s: %s" % (o["raise"], o.get("msg"))
     if not o["args_unchanged"]:
         return "an argument array was modified"
-    if k == "proj_single":
-        f = _project_oracle(c["p"], c["ref"], c["a"], o["fn"], "project_point_to_line")
-        if f:
-            return f
-        if all(e == 0 for e in c["a"]):
-            return None if o["meth"] is None else "Line accepted a zero direction"
-        if o["meth"] is None:
-            return "Line rejected the non-zero direction %r" % (c["a"],)
-        return _project_oracle(c["p"], c["ref"], c["a"], o["meth"], "Line.project")
-    if k == "proj_stack":
-        zero = all(e == 0 for e in c["a"])
-        if len(o["fn"]) != len(c["ps"]):
+    if k in ("proj_single", "proj_stack"):
+        a = c["a"]
+        zero = all(e == 0 for e in a)
+        m = o["meth"]
+        raised = isinstance(m, dict)
+        if raised and m["raise"] != "ValueError":
+            return "Line raised %s" % m["raise"]
+        if zero and not raised:
+            return "Line accepted a zero direction"
+        if raised and max(abs(e) for e in a) > 2.0 ** -25:
+            return "Line rejected the non-zero direction %r" % (a,)
+        pts = [c["p"]] if k == "proj_single" else c["ps"]
+        fn = [o["fn"]] if k == "proj_single" else o["fn"]
+        me = None if raised else ([m] if k == "proj_single" else m)
+        if len(fn) != len(pts) or (me is not None and len(me) != len(pts)):
             return "wrong number of rows"
-        if (o["meth"] is None) != zero:
-            return "Line accepted a zero direction" if zero else "Line rejected a non-zero direction"
-        for i, p in enumerate(c["ps"]):
-            f = _project_oracle(p, c["ref"], c["a"], o["fn"][i], "project_point_to_line row %d" % i)
-            f = f or (None if zero else _project_oracle(p, c["ref"], c["a"], o["meth"][i], "Line.project row %d" % i))
+        for i, p in enumerate(pts):
+            f = _project_oracle(p, c["ref"], a, fn[i], "project_point_to_line row %d" % i)
+            if not f and me is not None:
+                f = _project_oracle(p, c["ref"], a, me[i], "Line.project row %d" % i)
             if f:
                 return f
         return None
@@ -449,7 +473,7 @@ def oracle(c, o):
                 return f
         return None
     p0, q0, p1, q1 = (_F(c[n]) for n in ("p0", "q0", "p1", "q1"))
-    mag = max([1] + [abs(e) for e in p0 + q0 + p1 + q1])
+    mag = max(abs(e) for e in p0 + q0 + p1 + q1)   # non-zero: p0 != q0
     if k.startswith("isect3"):
         e, f, g = _sub(p0, q0), _sub(p1, q1), _sub(p0, p1)
         kk, h = _cross(f, e), _cross(f, g)
